@@ -28,4 +28,36 @@ theorem inv_reachable (env : Env) (now : Int) (en : Bool) (ops : List Op) :
     Inv (runOps (initSt env now en) ops) :=
   runOps_inv _ ops (inv_init env now en)
 
+/-- the late sleep of the test driver is a history of `advance` and `yield` operations, so every theorem about
+histories covers it -/
+theorem sleepLate_ops (n : Nat) (target late : Int) (s : St) :
+    ∃ ops : List Op, (∀ op ∈ ops, op = .yield ∨ ∃ d, op = .advance d) ∧ sleepLate n target late s = runOps s ops := by
+  induction n generalizing s with
+  | zero => exact ⟨[], fun _ h => (by cases h), rfl⟩
+  | succ n ih =>
+    unfold sleepLate
+    have last : ∃ ops : List Op, (∀ op ∈ ops, op = .yield ∨ ∃ d, op = .advance d) ∧
+        (step (step s (.advance (target - s.now))).1 .yield).1 = runOps s ops :=
+      ⟨[.advance (target - s.now), .yield], fun op h => (by
+        simp at h; rcases h with rfl | rfl
+        · exact Or.inr ⟨_, rfl⟩
+        · exact Or.inl rfl), rfl⟩
+    split
+    · next t _ =>
+      split
+      · simp only []
+        generalize hw : (if (if t > s.now then t else s.now) + late > target then target
+          else (if t > s.now then t else s.now) + late) = w
+        obtain ⟨ops, h1, h2⟩ := ih (step (step s (.advance (w - s.now))).1 .yield).1
+        refine ⟨.advance (w - s.now) :: .yield :: ops, ?_, ?_⟩
+        · intro op h
+          simp at h
+          rcases h with rfl | rfl | h
+          · exact Or.inr ⟨_, rfl⟩
+          · exact Or.inl rfl
+          · exact h1 op h
+        · rw [h2]; rfl
+      · exact last
+    · exact last
+
 end Ea
